@@ -372,6 +372,13 @@ func popcount(x uint32) int {
 // after and a violation, if any.
 func fxJudge(pre fxOracle, e fxEvent, res fxResult, n int) (fxOracle, *viol) {
 	if !res.Accepted {
+		// an event that the statement says takes effect may not be refused: in its own phase, well-formed, by a participant
+		// whose contribution to this phase is still awaited - a contribution (in time or late), a decline or an error report
+		if !pre.Cancelled && pre.Phase != phReady && pre.Phase != phIdle && e.Pid >= 0 && e.Pid < n && fxWellFormed(e, n) {
+			if evPhase, kind := fxEventInfo(e.Name); (kind == "contrib" || kind == "fail") && evPhase == pre.Phase && pre.Delivered&(uint32(1)<<uint(e.Pid)) == 0 {
+				return pre, violf("acceptable-refused", "%s is due in phase %s from a participant who has not delivered yet, but was refused: %s", e, fxPhaseNames[pre.Phase], clip(res.Err, 160))
+			}
+		}
 		return pre, nil
 	}
 	post := pre
